@@ -394,11 +394,13 @@ def fixed_sizes(repo: Repo, rep, P: str, secs):
         if isinstance(n, ast.Assign) and isinstance(n.value, ast.Call) and norm(n.value.func) in ("unpack", "struct.unpack"):
             sargs = n.targets[0].elts if isinstance(n.targets[0], ast.Tuple) else None
     con = f"{cm.file.rel}:ControllerMidiMap.cmid_data"
-    if gf == sf_ and gf is not None and struct.calcsize(gf) == 8 and gf.startswith("<"):
-        rep.ok(f"{P}.R4", con, f"calcsize({gf!r}) = 8 on both sides")
+    if gf is not None and sf_ is not None and struct.calcsize(gf) == 8 and struct.calcsize(sf_) == 8:
+        rep.ok(f"{P}.R4", con, f"calcsize({gf!r}) = calcsize({sf_!r}) = 8")
     else:
-        rep.violation(f"{P}.R4", con, f"pack {gf!r} / unpack {sf_!r}", "a CMID entry must be the same 8-byte little-endian record on both sides",
+        rep.violation(f"{P}.R4", con, f"pack {gf!r} / unpack {sf_!r}", "a CMID entry must be an 8-byte record on both sides",
                       f"{cm.file.rel}:{gg.lineno}")
+    from . import c02
+    c02.cmid_record_pair(repo, rep, P, "R4")
     # field positions: message_type, channel, slope, 0, parameter, 0, set-marker  ↔ offsets table
     if gargs is not None and sargs is not None and len(gargs) == len(sargs) == 7:
         gnames = [parity.last(norm(a)) if attr_chain(a) or isinstance(a, ast.Attribute) else norm(a) for a in gargs]
